@@ -50,6 +50,9 @@ def control_vectors(U, p, n):
         out.append(("small", v, None))
     out.append(("2d", al.generic_points(n, 2), None))
     out.append(("rational", al.generic_points(n), al.generic_weights(n)))
+    if n >= 3:
+        # very uneven weights: the tolerance test must not be normalised away by the largest weight
+        out.append(("rational_uneven", al.generic_points(n), [F(10 ** 6) if i == n // 2 else F(1) for i in range(n)]))
     if p >= 1 and len(ks) > 2:
         # a line with a kink of 1e-6 at the control point in the middle: every interior knot is removable within the default
         # tolerance (squared error ~1e-12) and none is removable exactly - clean(0) must keep them all
